@@ -7,6 +7,7 @@ package traefikoidc
 // operation, the result and a projection of the real internal state.
 
 import (
+	"math"
 	"sort"
 	"encoding/json"
 	"fmt"
@@ -159,6 +160,9 @@ func vfGenCacheCase(r *vfRand, id int, profile string) *vfCacheCase {
 		switch {
 		case x < 40:
 			ttl := int64(r.pick(vfTTLHours)) * int64(time.Hour)
+			if r.chance(1, 12) { // lifetimes of centuries, up to the largest a Duration can express
+				ttl = []int64{250 * 365 * 24 * int64(time.Hour), math.MaxInt64, 100 * 365 * 24 * int64(time.Hour), math.MaxInt64 - 1}[r.intn(4)]
+			}
 			if profile == "C13" {
 				ttl = int64(r.pick([]int{-1, 1, 1, 100})) * int64(time.Hour)
 			}
@@ -375,6 +379,10 @@ func vfCacheCorpus() []*vfCacheCase {
 		{Kind: "corpus", Cap: 3, Wrap: true, Ops: []vfCacheOp{ // through the wrapper: a live value re-stored with a non-positive lifetime is gone
 			{O: "set", K: 0, V: 1, TTL: h}, {O: "get", K: 0}, {O: "set", K: 0, V: 2, TTL: 0}, {O: "get", K: 0}, {O: "cleanup"}, {O: "get", K: 0},
 			{O: "set", K: 1, V: 3, TTL: h}, {O: "set", K: 1, V: 4, TTL: -h}, {O: "get", K: 1}, {O: "del", K: 0}, {O: "get", K: 0}}},
+		{Kind: "corpus", Cap: 3, Ops: []vfCacheOp{ // entries that live for centuries (a token with exp=9999999999, an unbounded Duration) are live
+			{O: "set", K: 0, V: 1, TTL: 250 * 365 * 24 * h}, {O: "set", K: 1, V: 2, TTL: math.MaxInt64}, {O: "set", K: 2, V: 3, TTL: h},
+			{O: "get", K: 0}, {O: "get", K: 1}, {O: "cleanup"}, {O: "get", K: 0}, {O: "get", K: 1}, {O: "adv", D: 61 * m}, {O: "cleanup"},
+			{O: "get", K: 2}, {O: "set", K: 3, V: 4, TTL: h}, {O: "get", K: 0}, {O: "get", K: 1}, {O: "get", K: 3}}},
 		{Kind: "corpus", Cap: 2, Ops: []vfCacheOp{ // cleanup at 95% of a lifetime keeps the entry
 			{O: "set", K: 0, V: 1, TTL: 5 * h}, {O: "adv", D: 299 * m}, {O: "cleanup"}, {O: "get", K: 0}}},
 	}
